@@ -1083,6 +1083,88 @@ theorem crField_spec (data : Bytes) (s e : Nat) (hse : s < e) (he : e ≤ data.l
   · rw [if_pos h, if_pos (by rw [h]), slice_dropLast data s e hse he]
   · rw [if_neg h, if_neg (by intro h'; exact h (by simpa using h'))]
 
+/-! ### k-line formats (2-line FASTA, FASTQ): line roles -/
+
+theorem splitOn_free' (d : Nat) (f : Bytes) (h : d ∉ f) : splitOn d f = [f] := by
+  induction f with
+  | nil => rfl
+  | cons b bs ih =>
+    have hb : b ≠ d := fun e => h (by simp [e])
+    have hbs : d ∉ bs := fun e => h (by simp [e])
+    simp [splitOn, hb, ih hbs, consHead]
+
+/-- the newline-terminated pieces of a buffer are its complete lines -/
+theorem pieces_nl (bs : Bytes) : pieces (· == 10) bs = linesOf bs := by
+  have hfree := linesOf_free bs
+  have htail := tailOf_free bs
+  conv => lhs; rw [unlines_linesOf bs]
+  generalize linesOf bs = ls at hfree
+  induction ls with
+  | nil =>
+    simp only [unlines, List.map_nil, List.flatten_nil, List.nil_append]
+    exact piecesAcc_free _ _ [] (fun b hb => by
+      have : b ≠ 10 := fun h => htail (h ▸ hb)
+      simp [this])
+  | cons l rest ih =>
+    have h1 : unlines (l :: rest) ++ tailOf bs = l ++ 10 :: (unlines rest ++ tailOf bs) := by simp [unlines]
+    rw [h1, pieces_stretch (· == 10) 10 l 10 _ (fun _ _ => rfl) (by simp)]
+    rw [splitOn_free' 10 l (hfree l (by simp)), ih (fun l' hl' => hfree l' (by simp [hl']))]
+    rfl
+
+theorem chunkF_map {α β} (f : α → β) (n k : Nat) (xs : List α) :
+    (chunkF n k xs).map (fun r => r.map f) = chunkF n k (xs.map f) := by
+  induction k generalizing xs with
+  | zero => simp [chunkF]
+  | succ k ih => simp [chunkF, ih, List.map_take, List.map_drop]
+
+theorem slice_add (bs : Bytes) (s o e : Nat) : slice bs (s + o) e = (slice bs s e).drop o := by
+  simp only [slice]
+  rw [List.drop_take, List.drop_drop]
+  congr 1
+  omega
+
+/-- **kline_roles.** For every buffer whose number of complete lines is a positive multiple of `k` (2-line FASTA:
+k = 2, FASTQ: k = 4) the (start, end) table built from the newline positions denotes, for record `i` and line
+role `j`, exactly line `k·i + j` of the text with the role's offset (the header marker) dropped. -/
+theorem kline_roles (k : Nat) (offsets : List Nat) (bs : Bytes) (hk : 0 < k)
+    (hmul : (linesOf bs).length % k = 0) (hpos : k ≤ (linesOf bs).length) :
+    ∃ rows, klineTable k offsets bs = .ok rows ∧
+      rows.map (fun r => r.map (fun p => slice bs p.1 p.2))
+        = (chunkF k ((linesOf bs).length / k) (linesOf bs)).map (fun e =>
+            (List.zip e (offsets ++ List.replicate k 0)).map (fun lo => lo.1.drop lo.2)) := by
+  have hlen : (delimsFrom (· == 10) 0 bs).length = (linesOf bs).length := by
+    rw [delimsFrom_length_eq_pieces (· == 10) bs 0 []]
+    change (pieces (· == 10) bs).length = _
+    rw [pieces_nl]
+  have hlines : (List.zip (0 :: (delimsFrom (· == 10) 0 bs).dropLast.map (· + 1)) (delimsFrom (· == 10) 0 bs)).map
+      (fun p => slice bs p.1 p.2) = linesOf bs := by
+    rw [List.zip, List.map_zipWith]
+    have := bridge (· == 10) bs
+    rw [pieces_nl] at this
+    rw [← this, zipWith_dropLast]
+  obtain ⟨nls, hnls⟩ : ∃ x, x = delimsFrom (· == 10) 0 bs := ⟨_, rfl⟩
+  rw [← hnls] at hlen hlines
+  have htake : nls.take (nls.length - nls.length % k) = nls := by
+    rw [hlen, hmul]; exact List.take_of_length_le (by omega)
+  have hT : klineTable k offsets bs = .ok ((chunkF k (nls.length / k) (List.zip (0 :: nls.dropLast.map (· + 1)) nls)).map
+      (fun r => (List.zip r (offsets ++ List.replicate k 0)).map (fun po => (po.1.1 + po.2, po.1.2)))) := by
+    unfold klineTable
+    simp only [← hnls]
+    have : ¬ (k = 0 ∨ nls.length < k) := by omega
+    simp only [this, if_false, htake]
+  refine ⟨_, hT, ?_⟩
+  rw [hlen]
+  simp only [List.map_map]
+  rw [← hlines, ← chunkF_map, List.map_map]
+  apply List.map_congr_left
+  intro r _
+  simp only [Function.comp]
+  rw [List.zip_map_left, List.map_map, List.map_map]
+  apply List.map_congr_left
+  intro po _
+  simp only [Function.comp, Prod.map, id]
+  exact slice_add bs po.1.1 po.2 po.1.2
+
 /-! ### non-vacuity -/
 
 -- "c\t1\t22\nxy\t333\t4\n" : two lines, three fields each
@@ -1097,5 +1179,7 @@ example : (match intColumn [45,53,9,51,51,10] [(0,2),(3,5)] with | .ok v => v | 
 example : specIntList [49,48,44,50,48,44] = some [10, 20] := by decide
 example : omap specIntList [[49,48,44,50,48,44], [55,44]] = some [[10,20],[7]] := by decide
 example : specInt [45,53] = some (-5) := by decide
+-- "@r\nAC\n+\nII\n": one FASTQ record
+example : (linesOf [64,114,10,65,67,10,43,10,73,73,10]).length % 4 = 0 ∧ 4 ≤ (linesOf [64,114,10,65,67,10,43,10,73,73,10]).length := by decide
 
 end C02
